@@ -475,10 +475,12 @@ impl<'source> CommentBlocks<'source> {
             .into()
     }
 
+    /// Column at which a block comment opens. Continuation lines are
+    /// positioned relative to the opener, also when code precedes it on its
+    /// line: the printer aligns them with the opener wherever it lands.
     fn opening_indentation(&self, start: usize) -> usize {
         let line_start = self.source[..start].rfind('\n').map_or(0, |newline| newline + 1);
-        let prefix = &self.source[line_start..start];
-        if prefix.chars().all(LineSeparation::is_horizontal_whitespace) { prefix.len() } else { 0 }
+        start - line_start
     }
 
     fn indentation(line: &str) -> usize {
